@@ -28,10 +28,17 @@
 /* EXACT_ALLOC: the arrays have exactly themax cells (symbolic size: every out-of-bounds access is caught, but the SAT
  * encoding is ~8x larger) and only the memory-safety/frame/no-throw obligations are kept (ENSURES -> true).
  * Otherwise the arrays have CAP >= themax cells (constant size, small encoding) and the full postcondition is proved. */
-#ifdef EXACT_ALLOC
+#if defined(EXACT_ALLOC)
 #define ALLOC_N themax
+#define CAP_OK (1 <= themax && themax <= CAP)
+#define ENSURES(e) __CPROVER_ensures(1)
+#elif defined(EXACT_CONST)
+/* EXACT_CONST (twin of the instances that unwind loops, where symbolic array sizes exhaust memory): max() == CAP exactly */
+#define ALLOC_N CAP
+#define CAP_OK (themax == CAP)
 #define ENSURES(e) __CPROVER_ensures(1)
 #else
+#define CAP_OK (1 <= themax && themax <= CAP)
 #define ALLOC_N CAP
 #define ENSURES(e) __CPROVER_ensures(e)
 #endif
@@ -74,7 +81,7 @@ static void havoc_ghosts(void)
 #define FF       (*firstfree)
 #define HEADC    (-(FF + 1))
 
-#define FRESH_SET (1 <= themax && themax <= CAP \
+#define FRESH_SET (CAP_OK \
    && __CPROVER_is_fresh(item, ALLOC_N * sizeof(long long)) && __CPROVER_is_fresh(key, ALLOC_N * sizeof(long long)) \
    && __CPROVER_is_fresh(rank, ALLOC_N * sizeof(int)) \
    && __CPROVER_is_fresh(thesize, sizeof(int)) && __CPROVER_is_fresh(thenum, sizeof(int)) && __CPROVER_is_fresh(firstfree, sizeof(int)))
@@ -326,7 +333,7 @@ void h_removePerm(void)
 #endif
 
 #ifdef INST_removeNums
-#ifdef EXACT_ALLOC
+#if defined(EXACT_ALLOC)
 #define NUMS_N (n > 0 ? n : 1)
 #else
 #define NUMS_N CAP
